@@ -7,6 +7,7 @@ from collections import Counter
 from hypothesis import strategies as st
 
 from statemachine import State, StateMachine
+from statemachine.exceptions import TransitionNotAllowed
 
 from ..core import HarnessError
 from ..scenario import outcome
@@ -116,7 +117,9 @@ def build_sync(cycle, nested, cb_points, sched, listener, attach=False, ladder=0
     return sm, log
 
 
-def check_history(log, sent, cycle, state_id, stranded_hint="", ladder=0):
+def check_history(log, sent, cycle, state_id, stranded_hint="", ladder=0, subset=False):
+    """subset=True (refusal mode): events queued behind a refused one are discarded together with it (the engine empties its queue
+    when an event fails), so the processed events are a sub-multiset of the sent ones; everything else is checked as usual."""
     open_ = None
     for kind, w, k, _ in log:
         if kind == "nested-returned":
@@ -131,7 +134,11 @@ def check_history(log, sent, cycle, state_id, stranded_hint="", ladder=0):
             open_ = None
     done = [(w, k) for kind, w, k, _ in log if kind == "end"]
     cd, cs = Counter(done), Counter(sent)
-    if cd != cs:
+    if subset:
+        dup = list((cd - cs).elements())
+        if dup:
+            return "duplicated", f"sent {sorted(map(str, sent))}; processed more than once / unknown: {dup}"
+    elif cd != cs:
         lost = list((cs - cd).elements())
         dup = list((cd - cs).elements())
         return ("stranded" if lost else "duplicated"), f"sent {sorted(map(str, sent))}; never processed: {lost}; processed more than once / unknown: {dup}{stranded_hint}"
@@ -140,9 +147,9 @@ def check_history(log, sent, cycle, state_id, stranded_hint="", ladder=0):
         ks = [k for (ww, k) in done if ww == w and not isinstance(k, tuple)]
         if ks != sorted(ks):
             return "order", f"events of sender {w} were processed in the order {ks}"
-    exp = f"s{ladder}" if ladder else f"s{len(sent) % cycle}"
+    exp = f"s{ladder}" if ladder else f"s{(len(done) if subset else len(sent)) % cycle}"
     if state_id != exp:
-        return "state", f"final state {state_id}, expected {exp} after {len(sent)} events"
+        return "state", f"final state {state_id}, expected {exp} after {len(done) if subset else len(sent)} events"
     return None
 
 
@@ -256,23 +263,43 @@ def run_async(case):
             await sm.activate_initial_state()
         styles = case.get("styles", [])
 
+        refuse = {tuple(x) for x in case.get("refuse", [])}
+        refusals = []
+
         async def sender(w):
             for k in range(senders[w]):
                 style = styles[w] if w < len(styles) else "await"
                 who, kk = tag_of(case, w, k)
-                if style == "deferred":
-                    pending = sm.send(event_of(case, w, k), who=who, k=kk)  # the event is enqueued here ...
-                    await sched.point(("idle-before-await", w, k))
-                    await pending  # ... and the processing loop entered only now
-                else:
-                    await sm.send(event_of(case, w, k), who=who, k=kk)
+                # refusal mode: this send is an event that has no transition anywhere (strict machine): whoever drains the queue
+                # when its turn comes is handed TransitionNotAllowed
+                ev = "nope" if (w, k) in refuse else event_of(case, w, k)
+                try:
+                    if style == "deferred":
+                        pending = sm.send(ev, who=who, k=kk)  # the event is enqueued here ...
+                        await sched.point(("idle-before-await", w, k))
+                        await pending  # ... and the processing loop entered only now
+                    else:
+                        await sm.send(ev, who=who, k=kk)
+                except TransitionNotAllowed as e:
+                    if not refuse:
+                        raise
+                    refusals.append((w, k, str(e)))
                 if style == "idle":
                     await sched.point(("idle", w, k))
 
         tasks = []
         if case.get("activate") == "race":
             # one more task activates the machine explicitly while the senders are already sending
-            ta = asyncio.ensure_future(sm.activate_initial_state())
+            async def activator():
+                try:
+                    await sm.activate_initial_state()
+                except TransitionNotAllowed as e:
+                    # refusal mode: the activating task may be the one draining the queue when the refused event's turn comes
+                    if not refuse:
+                        raise
+                    refusals.append((-1, 0, str(e)))
+
+            ta = asyncio.ensure_future(activator())
             ta._wid = -1
             tasks.append(ta)
         for w in range(len(senders)):
@@ -286,6 +313,27 @@ def run_async(case):
         for t in tasks:
             if t.exception() is not None:
                 return ("sender-exception", f"sender task raised {t.exception()!r}"), log, sched
+        if refuse:
+            sent = [x for x in sent_events(senders, case.get("nested", []), case) if x not in refuse]
+            if not 1 <= len(refusals) <= len(refuse):
+                return ("refusals", f"{len(refuse)} event(s) without any transition were sent to a strict machine, TransitionNotAllowed was raised {len(refusals)} time(s): {refusals}"), log, sched
+            bad = check_history(log, sent, case.get("cycle", 1), sm.current_state.id, subset=True)
+            if bad:
+                return bad, log, sched
+            # "once all senders have returned no event is left unprocessed": a later, unrelated event finds an empty queue
+            mark, state_then = len(log), sm.current_state.id
+            probe = asyncio.ensure_future(sm.send("tick", who=99, k=0))
+            probe._wid = 99
+            try:
+                await asyncio.wait_for(sched.drive([probe]), 30)
+            except asyncio.TimeoutError:
+                raise HarnessError("gate scheduler timed out (probe)")
+            if probe.exception() is not None:
+                return ("stranded", f"after all senders had returned (state {state_then}) one more event was sent and raised {probe.exception()!r}: something was left in the queue"), log, sched
+            late = [(kind, w, k) for kind, w, k, _ in log[mark:]]
+            if late != [("begin", 99, 0), ("end", 99, 0)]:
+                return ("stranded", f"after all senders had returned (state {state_then}; TransitionNotAllowed had been delivered {len(refusals)}x) one more event was sent and the machine processed {late}: events were left unprocessed in the queue"), log, sched
+            return None, log, sched
         return check_history(log, sent_events(senders, case.get("nested", []), case), case.get("cycle", 1), sm.current_state.id, ladder=case.get("ladder", 0)), log, sched
 
     bad, log, sched = asyncio.run(main())
@@ -295,6 +343,8 @@ def run_async(case):
     nt = contended(log) if not case.get("untagged") else sched.released > 2
     if nt:
         labels.add("contended")
+    if case.get("refuse"):
+        labels.add("refused-event-in-queue")
     for m in ("ladder", "untagged", "allow"):
         if case.get(m):
             labels.add(m)
@@ -441,9 +491,15 @@ def cases(draw, tier):
         n = draw(st.integers(2, 4))
         senders = [draw(st.integers(1, 3)) for _ in range(n)]
         nested = [[w, k] for w in range(n) for k in range(senders[w]) if draw(st.integers(0, 9)) < 3]
-        return dict({"engine": "asyncio", "cycle": draw(st.integers(1, 3)), "senders": senders, "nested": nested, "activate": draw(st.sampled_from([False, True, "race", "race"])),
-                     "styles": [draw(st.sampled_from(["await", "deferred", "idle", "deferred"])) for _ in range(n)],
-                     "choices": draw(st.lists(st.integers(0, 7), min_size=1, max_size=40))}, **draw(mode(senders, nested)))
+        cfg = dict({"engine": "asyncio", "cycle": draw(st.integers(1, 3)), "senders": senders, "nested": nested, "activate": draw(st.sampled_from([False, True, "race", "race"])),
+                    "styles": [draw(st.sampled_from(["await", "deferred", "idle", "deferred"])) for _ in range(n)],
+                    "choices": draw(st.lists(st.integers(0, 7), min_size=1, max_size=40))}, **draw(mode(senders, nested)))
+        if not (cfg.get("ladder") or cfg.get("untagged") or cfg.get("allow")) and draw(st.integers(0, 2)) == 0:
+            # refusal mode (round 6, C06k): one or two of the sends are events without any transition; nothing may stay behind them
+            pos = [[w, k] for w in range(n) for k in range(senders[w])]
+            cfg["refuse"] = draw(st.lists(st.sampled_from(pos), min_size=1, max_size=2, unique_by=tuple))
+            cfg["nested"] = [x for x in cfg["nested"] if x not in cfg["refuse"]]
+        return cfg
     n = draw(st.sampled_from([2, 2, 3, 3, 4]))
     senders = [draw(st.integers(1, 3 if n < 4 else 2)) for _ in range(n)]
     nested = [[w, k] for w in range(n) for k in range(senders[w]) if draw(st.integers(0, 9)) < 2]
